@@ -304,7 +304,6 @@ func RunCoalesce(msgs []*auparse.AuditMessage) (ev *aucoalesce.Event, obs string
 			ev, obs = nil, "panic"
 		}
 	}()
-	perr := PrimaryErr(msgs) // calls Data() on the primary only, as newEvent will
 	e, err := aucoalesce.CoalesceMessages(msgs)
 	if err != nil {
 		cls := "err:unknown:" + hx(err.Error())
@@ -322,5 +321,6 @@ func RunCoalesce(msgs []*auparse.AuditMessage) (ev *aucoalesce.Event, obs string
 	if e == nil {
 		return nil, "nil-event-without-error"
 	}
-	return e, Flatten(e, perr)
+	// the primary's Data() has been called by newEvent, so this only reads its cached error
+	return e, Flatten(e, PrimaryErr(msgs))
 }
